@@ -397,6 +397,27 @@ func runC06(w *W) {
 			continue
 		}
 		bad, how := damage(w, msg, ms)
+		// a wide container: thousands of small elements in a list field of the root (well-formed, then damaged like any
+		// other message half of the time): what is allocated per element must not grow with the number of elements
+		if t.Chance(1, 12, "fault.wide") && c.rootT.Kind == tSTRUCT {
+			for _, f := range c.rootT.St.Fields {
+				if (f.T.Kind != tLIST && f.T.Kind != tSET) || f.T.Elem.Kind > tI64 {
+					continue
+				}
+				n := pickInt(t, "fault.wide.n", 3000, 1000, 8000, 20000)
+				sz := map[byte]int{tBOOL: 1, tBYTE: 1, tDOUBLE: 8, tI16: 2, tI32: 4, tI64: 8}[f.T.Elem.Kind]
+				wide := []byte{f.T.Kind, byte(f.ID >> 8), byte(f.ID), f.T.Elem.Kind, byte(n >> 24), byte(n >> 16), byte(n >> 8), byte(n)}
+				wide = append(wide, make([]byte, n*sz)...)
+				wide = append(wide, 0)
+				bad, how = wide, fmt.Sprintf("wide list of %d elements in field %d", n, f.ID)
+				if t.Chance(1, 2, "fault.wide.cut") {
+					bad = bad[:len(bad)-1-t.Intn(sz+1, "fault.wide.cut.n")]
+					how += " (cut)"
+				}
+				w.Count("fault_wide_list")
+				break
+			}
+		}
 		// second-order: random multi-fault mutation of the damaged message
 		if t.Chance(1, 4, "fault.second") {
 			var h2 string
